@@ -32,6 +32,7 @@ def run(run):
             closed = rng.randint(0, 1)
             reqs.append(f"cell_to_boundary {c} {closed} {n}"); meta.append((c, closed, n))
         reqs.append(f"cell_to_lonlat {c}"); meta.append((c, None, None))
+        reqs.append(f"cell_to_boundary_default {c}"); meta.append((c, 1, "none"))      # options = None: closed ring, default subdivision
     impl, model = core.both(run, reqs, "boundary", timeout=3000)
     centre = {}
     corners = {}
